@@ -111,6 +111,9 @@ func (s *State) havocAll(tag string) {
 	nw := s.c.fresh("W", "Int")
 	s.c.assume(le(w, nw))
 	s.comps["W"] = nw
+	if s.c.onHavoc != nil {
+		s.c.onHavoc(s)
+	}
 }
 
 func allWrittenNames(s *State, seen map[*State]bool, acc map[string]bool) map[string]bool {
